@@ -65,11 +65,7 @@ def registry_snapshot():
     from dali.gear import general as gg
     from dali.device import general as dg, pushbutton
     from gen import _registry as reg
-    parts = [reg.canon(x) for x in (
-        command.Command._framesizes, command.Command._commands, gg._GearCommand._gearcommands,
-        gg._StandardCommand._opcodes, gg._SpecialCommand._opcodes, dg._DeviceCommand._devicecommands,
-        dg._StandardDeviceCommand._opcodes, dg._StandardInstanceCommand._opcodes, dg._Event._instance_types,
-        pushbutton._PushbuttonEvent._event_classes, address.Address._addrtypes)]
+    parts = reg.snapshot_all()
     return hashlib.sha256(repr(parts).encode()).hexdigest()
 
 
@@ -255,7 +251,7 @@ def search(ctx, corr, broken):
         if isinstance(op, int):
             for up in (0x01FE, 0xFFFE, 0x0100, 0x81FF, 0xFD05, 0x0145):
                 cand.append((24, (up << 8) | (op & 0xFF), 0))
-    for c in dg._DeviceCommand._devicecommands:
+    for c in reg.device_families()[0]:
         a, i = getattr(c, "_addr", None), getattr(c, "_instance", None)
         if isinstance(a, int):
             for lo in range(256):
